@@ -16,6 +16,7 @@ RULE = (
     "breadth-first exploration of all operation sequences up to the depth bound over the declared alphabets of the three explorers; "
     "histories are replayed on fresh objects; dedupe on canon(model values, implementation alias pattern, buffer kinds) per block (= first "
     "operation); non-trivial = history contains at least one mutation or removal after an insertion"
+    "; a second emulsion world whose main class is DiffuseDroplet (widths 0, 0.3, unset); separate link / write-row operations with the invariant 'linked rows == members' while the link is valid"
 )
 ASSUMPTIONS = [
     "operation alphabets and the four caller-owned droplets are fixed; depth 4 (quick) / 5 (thorough); default settings (copy=True) only",
